@@ -25,8 +25,28 @@ def ref_concrete(case, pred, rows, strings, K):
   return rel, V.concretize_rel(m, rel, strings), ok
 
 
+def _single(case, pred):
+  import copy
+  c = copy.copy(case)
+  c.check = [pred]
+  return c
+
+
+def sqlite_rejects(text, pred, schema):
+  """-> error text if real SQLite refuses the emitted statements on an empty database."""
+  try:
+    c = real.compile_pred(text, pred)
+  except Exception:  # noqa: BLE001
+    return None
+  try:
+    e1.run_real(c.statements(), schema, {})
+  except Exception as e:  # noqa: BLE001
+    return '%s: %s' % (type(e).__name__, e)
+  return None
+
+
 def validate_case(case, prop_id, out_dir, K=None, timeout_ms=None, range_bound=3,
-                  known=None, compaction=True):
+                  known=None, compaction=True, list_nothing='null'):
   """-> dict(results=[...per predicate...])"""
   res = []
   K = K or case.K
@@ -45,9 +65,28 @@ def validate_case(case, prop_id, out_dir, K=None, timeout_ms=None, range_bound=3
       except Unsupported as e:
         r['status'] = 'not_encodable'
         r['why'] = 'sql: %s' % e
+        # outside the modelled subset: at least SQLite must accept the statements
+        err = sqlite_rejects(text, pred, schema)
+        if err:
+          r['status'] = 'violation'
+          r['kind'] = 'sqlite_error'
+          r['replay'] = {'property': prop_id, 'program': text, 'pred': pred, 'db': {},
+                         'schema': schema, 'sqlite_error': err,
+                         'real_rows': None, 'expected_rows': None}
+        continue
+      except real.DIAGNOSTICS as e:
+        r['status'] = 'rejected'
+        r['why'] = '%s: %s' % (type(e).__name__, str(e)[:200])
+        continue
+      except Exception as e:  # noqa: BLE001
+        r['status'] = 'violation'
+        r['kind'] = 'compiler_crash'
+        r['replay'] = {'property': prop_id, 'program': text, 'pred': pred, 'db': {},
+                       'schema': schema, 'exception': traceback.format_exc()[-1500:],
+                       'real_rows': None, 'expected_rows': None}
         continue
       ref = refsem.Ref(case.prog, D.store(), strings, range_bound, macros=case.macros,
-                       depths=case.depths, compaction=compaction)
+                       depths=case.depths, compaction=compaction, list_nothing=list_nothing)
       try:
         rrel = ref.relation(pred)
       except Unsupported as e:
@@ -122,6 +161,16 @@ def validate_case(case, prop_id, out_dir, K=None, timeout_ms=None, range_bound=3
                          'schema': schema, 'statements': side.statements,
                          'real_rows': a2, 'expected_rows': b2, 'real_header': hdr,
                          'how': 'bin/check %s --replay <this file>' % prop_id}
+          from . import findings
+          if list_nothing == 'null' and findings.list_of_nothing({}, r['replay'], {}):
+            # listed known finding: accept exactly this deviation in the oracle and decide
+            # the rest of the predicate's behaviour again
+            sub = validate_case(_single(case, pred), prop_id, out_dir, K, timeout_ms, range_bound,
+                                known, compaction, list_nothing='empty')['results'][0]
+            sub['known_finding'] = 'KF-C02-list-of-nothing'
+            sub['known_replay'] = r['replay']
+            r.clear()
+            r.update(sub)
       base.pop()
     except Exception as e:  # noqa: BLE001
       r['status'] = 'harness_error'
